@@ -265,7 +265,7 @@ def _hist_shape(case):
 # ---------------------------------------------------------------------- C06
 class C06:
     id = "C06"
-    quick, thorough = 500, 8000
+    quick, thorough = 1500, 30000
     timeout = 120
     rule = ("case = small tree x version x creator route x option subset (trackers, web/http seeds, comment, "
             "source, private), followed by a random history of 0-6 edits (library / CLI; set / clear); after "
@@ -415,7 +415,7 @@ class EditModel:
 
 class C07:
     id = "C07"
-    quick, thorough = 500, 8000
+    quick, thorough = 1500, 30000
     timeout = 120
     rule = ("case = original metafile (tool-made or reference-encoded with extra unknown keys; v1/v2/hybrid; "
             "random presence of each optional field) x history of 1-6 edit requests over the six fields (each "
